@@ -14,8 +14,9 @@ CAP = 60000
 
 
 class Facts:
-    def __init__(self, fn, cap=CAP):
+    def __init__(self, fn, cap=CAP, relevant=None):
         self.fn = fn
+        self.relevant = relevant      # predicate(atom info): facts about other atoms are not recorded (keeps the state space small)
         self.atoms = {}
         self.ok = True
         self._at = {}
@@ -66,6 +67,36 @@ class Facts:
         return ("atom", key, True)
 
     # ---- transfer ------------------------------------------------------
+    def _refresh(self, b, facts):
+        """facts that talk about the previous value of something block b recomputes (the call in b, locals assigned in b) are dropped"""
+        if not facts:
+            return facts
+        fn = self.fn
+        t = fn.blocks[b]["term"]
+        dead_calls = set()
+        dead_roots = set()
+        if t["k"] == "call":
+            dead_calls.add(b)
+            if t.get("dest") is not None and not t["dest"]["p"]:
+                dead_roots.add(t["dest"]["l"])
+        for s in fn.blocks[b]["stmts"]:
+            if s["k"] == "assign" and not s["pl"]["p"]:
+                dead_roots.add(s["pl"]["l"])
+        out = set()
+        for (k, v) in facts:
+            a = self.atoms.get(k, {})
+            kind = a.get("kind")
+            if kind == "call" and a.get("bb") in dead_calls:
+                continue
+            if kind == "discr" and a.get("call") is not None and a["call"].bb in dead_calls:
+                continue
+            if kind in ("place", "discr") and a.get("place") is not None and a["place"]["l"] in dead_roots and not (1 <= a["place"]["l"] <= fn.arg_count):
+                continue
+            if kind == "binop" and a.get("bb") == b:
+                continue
+            out.add((k, v))
+        return frozenset(out) if len(out) != len(facts) else facts
+
     def _step(self, b, env):
         fn = self.fn
         env = dict(env)
@@ -129,13 +160,14 @@ class Facts:
                 tgt = tt if v[1] else ft
                 return [(tgt, env, facts)] if tgt is not None and tgt in succs else []
             _, key, pos = v
+            rel = self.relevant is None or self.relevant(self.atoms.get(key, {}))
             for tgt, val in ((tt, True), (ft, False)):
                 if tgt is None or tgt not in succs:
                     continue
                 fact = (key, val == pos)
                 if (key, not fact[1]) in facts:
                     continue
-                out.append((tgt, env, facts | {fact}))
+                out.append((tgt, env, (facts | {fact}) if rel else facts))
             return out
         if info and info[0] == "discr":
             cp = self._canon_place(info[1]["pl"])
@@ -143,6 +175,8 @@ class Facts:
                              call=self._discr_call(info[1]["pl"]))
             names = {dv: n for dv, n in info[1].get("variants", [])}
             listed = []
+            if self.relevant is not None and not self.relevant(self.atoms.get(key, {})):
+                return [(y, env, facts) for y in succs]
             for lab, tgt in info[2].items():
                 if lab == "otherwise" or tgt not in succs:
                     continue
@@ -191,6 +225,7 @@ class Facts:
             self._at[b] = set(facts) if cur is None else (cur & facts)
             self._worlds.setdefault(b, set()).add(facts)
             env = self._step(b, dict(envt))
+            facts = self._refresh(b, facts)
             for (y, env2, facts2) in self._edges(b, env, facts):
                 work.append((y, tuple(sorted(env2.items())), frozenset(facts2)))
 
